@@ -176,6 +176,16 @@ def runJobs {α} (drv : DriverFn α) (fill : Nat → UInt8) (clk : Clock) : Glob
     let rs := runJobs drv fill clk r.1 js
     (rs.1, r.2 :: rs.2)
 
+/-- Globals reachable from the zero-initialised statics by any sequence of VGM exports (any
+input, tags, heap fill, clock), MDS exports and tool calls -/
+inductive Reachable {α} (drv : DriverFn α) : Globals → Prop
+  | init : Reachable drv initial
+  | vgm {g} (fill : Nat → UInt8) (clk : Clock) (inp : α) (tags : Vgm.Tags) :
+      Reachable drv g → Reachable drv (compileVgm drv g fill clk inp tags).1
+  | mds {g} (song : Song) (d : Mds.DataInfo) (vol : Option Nat) :
+      Reachable drv g → Reachable drv (compileMds g song d vol).1
+  | tool {g} (name : Bytes) : Reachable drv g → Reachable drv (getExtension g name).1
+
 /-! ### (b) what a player leaves in the `Song` -/
 
 /-- `LOOP_BREAK` params are scratch space of the players: normal form with all of them 0 -/
